@@ -67,6 +67,10 @@ CLAIMED = {
         technique="runtime monitoring: byte-for-byte round-trip ledger over the real server process, both protocols, the poll SSE transport and a restart",
         text="Against the real `resonate serve` process: ids (slashes, ':', markup characters, '%', '+', spaces, control characters, non-ASCII in NFC and NFD, template syntax, up to 4 kB), parameter/value bytes (0-64 kB arbitrary), header and tag maps (empty keys/values, dotted and quoted keys, case variants), idempotency keys, timeouts over the int64 range (JSON number exactness at +-2^53+-1, int32 boundaries) are written through one protocol and read back through both: create reply, HTTP and gRPC reads, exact-id search, completion reply through the other protocol, the notification and resume messages received on a real SSE stream of the poll transport, the claim payload, schedules and the promise a firing schedule derives (id template output, tags, parameter), and again after the server is killed and restarted. Ids differing only in case, surrounding whitespace or normalisation form must not resolve to the object; derived ids (__resume:<root>:<leaf>, __notify:<promise>:<id>, claim hrefs, scheduled promise ids) must contain the client ids unaltered.",
         note="Trusted: Go's HTTP/JSON/protobuf clients for encoding the requests (ids are percent-encoded per path segment; ids with empty or dot segments are not generated because HTTP cannot address them). Search is only checked for ids without pattern metacharacters. Waiting for messages/firings uses generous wall-clock waits whose expiry is counted (messages-not-seen-in-time) and never reported as a violation."),
+    "C06": dict(engine="sim", category="fault_enumeration", design="DESIGN.md §4 C06, §2.2, §2.4",
+        technique="runtime monitoring with fault enumeration: (i) in-process crash at every store-commit boundary (both sides) of fixed workloads with the commit monitors running across the restart, (ii) SIGKILL/SIGTERM of the real server process placed by operation index plus a COMMIT-time fault, judged by an acknowledged-write ledger and cross-table atomicity invariants",
+        text="Tier (i), engine sim: a workload is a fixed list of steps; it is run once to count its K store batches, then for every j <= K and both sides (right before batch j: not executed; right after: committed, all completions lost) it is re-run to that point, the whole in-memory server is discarded and a new one booted on the same database (file or shared in-memory), optionally crashed a second time during recovery. The row monitors (C01/C05/C08/C10 invariants: no completed promise with registrations, no routed promise without its task, no schedule advanced without its promise) judge every commit across the restart; the acknowledged-write ledger and the bounded-progress predicate are evaluated after recovery cycles. Tier (ii), engine proc: the real `resonate serve` on a database file; SIGKILL right after the k-th acknowledgement or while the k-th request is in flight, sometimes again during recovery; one COMMIT fault per round (a second connection holds a read transaction so the store's COMMIT fails: the request must not be acknowledged); after each restart the ledger (promises, completions, registrations, schedules, locks, task completions acknowledged 2xx) and the atomicity invariants are compared with the file through a read transaction; background processing must resume; finally SIGTERM with the default configuration must end with exit status 0 and the data kept.",
+        note="Limits: process-level crashes only (SQLite's atomic commit is assumed; power loss, fsync and torn pages are out of reach). In tier (i) a crash is modelled as a cut between two Execute calls. Tier (ii) places kills by operation index with a few ms of jitter; which instruction is interrupted is not controlled."),
 }
 
 PENDING_REASON = "check for this property is not built yet in this round (machinery under construction; see DESIGN.md §9 build order)"
